@@ -609,6 +609,10 @@ pub fn driver_set(prop: Prop, thorough: bool) -> Vec<Planned> {
     let mut out = vec![];
     for (label, path, programs, mode) in shapes {
         for (pi, pre) in preludes().into_iter().enumerate() {
+            // quick tier: the four-thread driver from the initial state only
+            if !thorough && label.starts_with("D12") && pi != 0 {
+                continue;
+            }
             // quick tier: the deviation only for the small unbounded drivers
             let calls: usize = programs.iter().map(|p| p.len()).sum();
             // deviation budget: Mode-U drivers in the thorough tier, the small Mode-U drivers in the quick tier
